@@ -32,26 +32,37 @@
    C36-bal-size-not-checked-by-builder (a constraint the importer checks and the model's
    [validate] does not contain). *)
 From GV Require Import Lib.Tactics Gas.GoArith Gas.Pool_gen Pool.Ordering EVM.Build EVM.BuildProofs.
+From GV Require Gas.FeesImpl.
 
 (* header_fields_are_recomputed_values: the importer's re-execution of the built block succeeds
    and state root, BAL hash, receipts root, bloom, requests hash and gas used of the assembled
-   header are exactly its outputs *)
+   header are exactly its outputs; the header's excess blob gas is CalcExcessBlobGas (the C35
+   transcription Gas/FeesImpl.v, fork- and blob-schedule dependent) evaluated at the header's
+   OWN time, which is what VerifyEIP4844Header recomputes.  [ccfg] = fork times and blob
+   schedule, [parent_hdr] = the parent's base fee / excess blob gas / blob gas used,
+   [head_time] = the new block's timestamp *)
 Theorem C36_header_fields_are_recomputed_values :
   forall (S Rc H Q : Type) meta pre_check exec cfg pre_exec post_exec finalize
          (root_of bal_hash_of : S -> H) (receipts_root bloom_of : list Rc -> H) (requests_hash : Q -> H)
+         ccfg parent_hdr parent_cancun head_time
          sigs1 sigs2 prio parent size0 pp pb b env tr1 tr2,
-  well_formed meta exec cfg ->
+  well_formed meta exec cfg -> (c_cancun cfg = true -> parent_cancun = true) ->
   generate_work S Rc H Q meta pre_check exec cfg pre_exec post_exec finalize root_of bal_hash_of
-                receipts_root bloom_of requests_hash sigs1 sigs2 prio parent size0 pp pb
+                receipts_root bloom_of requests_hash ccfg parent_hdr parent_cancun head_time
+                sigs1 sigs2 prio parent size0 pp pb
     = GwBlock S Rc H b env tr1 tr2 ->
-  exists pr, process S Rc Q meta pre_check exec cfg pre_exec post_exec finalize
+  (exists pr, process S Rc Q meta pre_check exec cfg pre_exec post_exec finalize
                      parent (h_gaslimit H (b_header H b)) (b_txs H b) = Some pr /\
     h_gasused H (b_header H b) = pr_gasused S Rc Q pr /\
     h_root H (b_header H b) = root_of (pr_state S Rc Q pr) /\
     h_balhash H (b_header H b) = bal_hash_of (pr_state S Rc Q pr) /\
     h_receipts H (b_header H b) = receipts_root (pr_receipts S Rc Q pr) /\
     h_bloom H (b_header H b) = bloom_of (pr_receipts S Rc Q pr) /\
-    h_requests H (b_header H b) = requests_hash (pr_requests S Rc Q pr).
+    h_requests H (b_header H b) = requests_hash (pr_requests S Rc Q pr)) /\
+  h_time H (b_header H b) = head_time /\
+  (c_cancun cfg = true ->
+   exists e, FeesImpl.calc_excess_blob_gas ccfg parent_hdr (h_time H (b_header H b)) = FeesImpl.Ok e /\
+             h_excessblobgas H (b_header H b) = Some e).
 Proof. exact header_fields_are_recomputed_values. Qed.
 Print Assumptions C36_header_fields_are_recomputed_values.
 
@@ -60,15 +71,18 @@ Print Assumptions C36_header_fields_are_recomputed_values.
 Theorem C36_built_block_accepted_partial :
   forall (S Rc H Q : Type) meta pre_check exec cfg pre_exec post_exec finalize
          (root_of bal_hash_of : S -> H) (receipts_root bloom_of : list Rc -> H) (requests_hash : Q -> H)
+         ccfg parent_hdr parent_cancun head_time
          (H_eqb : H -> H -> bool) proto_max
          sigs1 sigs2 prio parent size0 pp pb b env tr1 tr2,
   (forall h, H_eqb h h = true) ->
-  well_formed meta exec cfg -> (c_maxblobs cfg <= Z.of_N proto_max)%Z ->
+  well_formed meta exec cfg -> (c_cancun cfg = true -> parent_cancun = true) ->
+  (c_maxblobs cfg <= Z.of_N proto_max)%Z ->
   generate_work S Rc H Q meta pre_check exec cfg pre_exec post_exec finalize root_of bal_hash_of
-                receipts_root bloom_of requests_hash sigs1 sigs2 prio parent size0 pp pb
+                receipts_root bloom_of requests_hash ccfg parent_hdr parent_cancun head_time
+                sigs1 sigs2 prio parent size0 pp pb
     = GwBlock S Rc H b env tr1 tr2 ->
   validate S Rc H Q meta pre_check exec cfg pre_exec post_exec finalize root_of bal_hash_of
-           receipts_root bloom_of requests_hash H_eqb proto_max parent b = true.
+           receipts_root bloom_of requests_hash H_eqb ccfg parent_hdr proto_max parent b = true.
 Proof. exact built_block_accepted. Qed.
 Print Assumptions C36_built_block_accepted_partial.
 
@@ -79,10 +93,12 @@ Print Assumptions C36_built_block_accepted_partial.
 Theorem C36_built_within_limits :
   forall (S Rc H Q : Type) meta pre_check exec cfg pre_exec post_exec finalize
          (root_of bal_hash_of : S -> H) (receipts_root bloom_of : list Rc -> H) (requests_hash : Q -> H)
+         ccfg parent_hdr parent_cancun head_time
          sigs1 sigs2 prio parent size0 pp pb b env tr1 tr2,
-  well_formed meta exec cfg ->
+  well_formed meta exec cfg -> (c_cancun cfg = true -> parent_cancun = true) ->
   generate_work S Rc H Q meta pre_check exec cfg pre_exec post_exec finalize root_of bal_hash_of
-                receipts_root bloom_of requests_hash sigs1 sigs2 prio parent size0 pp pb
+                receipts_root bloom_of requests_hash ccfg parent_hdr parent_cancun head_time
+                sigs1 sigs2 prio parent size0 pp pb
     = GwBlock S Rc H b env tr1 tr2 ->
   (0 <= h_gasused H (b_header H b) <= h_gaslimit H (b_header H b))%Z /\
   (0 <= e_blobs env <= c_maxblobs cfg)%Z /\
@@ -92,6 +108,22 @@ Theorem C36_built_within_limits :
     = Some (e_pool env, e_state env, e_receipts env).
 Proof. exact built_within_limits. Qed.
 Print Assumptions C36_built_within_limits.
+
+(* failed_attempt_restores_pool: an attempt that ends in an error - for EVERY transaction kind,
+   the separately transcribed blob path commitBlobTransaction included, and for every error
+   class (before or after the block gas pool was debited) - leaves pool, state, included
+   transactions, receipts, header gas used / blob gas used and the counters exactly as they
+   were; only the reverted list grows (when applyTransaction was reached) *)
+Theorem C36_failed_attempt_restores_pool :
+  forall (S Rc : Type) meta pre_check exec cfg (env env' : benv S Rc) t e reached,
+  commit_transaction S Rc meta pre_check exec cfg env t = Ok (env', Some e, reached) ->
+  e_pool env' = e_pool env /\ e_state env' = e_state env /\ e_txs env' = e_txs env /\
+  e_receipts env' = e_receipts env /\ e_gasused env' = e_gasused env /\
+  e_blobgasused env' = e_blobgasused env /\ e_blobs env' = e_blobs env /\
+  e_tcount env' = e_tcount env /\
+  (e_reverted env' = e_reverted env ++ (if reached then [(t, e_tcount env)] else [])).
+Proof. exact failed_attempt_restores_pool. Qed.
+Print Assumptions C36_failed_attempt_restores_pool.
 
 (* build_terminates: each iteration of commitTransactions that does not stop consumes the head
    of one iterator (Shift: replaced by the sender's next transaction or dropped; Pop: sender
@@ -129,12 +161,14 @@ Print Assumptions C36_included_order_valid_partial.
 
 (* non-vacuity: a legacy block of gas limit 70000 over three senders; transaction 12 is refused
    as nonce-too-low (Shift, the sender goes on), 21 with another error (Pop, 22 is never tried),
-   32 and 13 no longer fit; the block holds 11 and 31, and the hypotheses are met *)
+   32 and 13 no longer fit; the block holds 11 and 31, the parent carried 7 blobs under a target
+   of 6 so the header's excess blob gas is one blob's worth, and the hypotheses are met *)
 Example C36_nonvacuous :
   well_formed ex_meta ex_exec ex_cfg /\
   match ex_run with
   | GwBlock _ _ _ b env _ tr2 =>
       map tx_id (b_txs _ b) = [11%N; 31%N] /\ h_gasused _ (b_header _ b) = 42000%Z /\
+      h_excessblobgas _ (b_header _ b) = Some 131072%Z /\
       map (fun p => (tx_id (fst p), snd p)) (e_reverted env) = [(12%N, 1%N); (21%N, 1%N)] /\
       map (fun a => (tx_id (it_tx (at_item a)), at_op a)) tr2 =
         [(11%N, OShift); (12%N, OShift); (21%N, OPop); (31%N, OShift); (32%N, OPop); (13%N, OPop)]
